@@ -49,8 +49,11 @@ REAL_VS_STUB = {
              "io.BufferedRandom / BufferedReader", "msgpack encoder/decoder", "pickle of handles"],
     "stub": ["fcntl.lockf layer (SimLockMech)", "time.monotonic / sleep (virtual clock)", "raw disk + namespace (SimFS)", "OS processes (baton-passed threads)", "atexit (per simulated process)"],
 }
+FAULT_PROBES = {"user_exception_in_body": "session_failed_user_exc", "encoder_exception": "session_failed_encoder_exc",
+                "duplicate_key": "session_failed_dup_at_put", "io_error_failed_session": "session_failed_io_error", "lock_timeout_expired": "timeout_fired",
+                "failed_put_caught_and_continued": "failed_put_caught_session_continues"}
 PROBES = ["reader_blocked_by_writer", "writer_blocked", "three_or_more_polling", "timeout_fired", "stale_handle_rescan",
-          "session_failed_user_exc", "session_failed_encoder_exc", "session_failed_dup_at_put", "session_failed_dup_at_flush",
+          "session_failed_user_exc", "session_failed_encoder_exc", "session_failed_dup_at_put",
           "session_failed_io_error", "queue_nonempty_after_failed_session", "same_path_two_spellings", "two_libraries",
           "pickled_handle", "create_race", "reader_saw_maybe_record", "molecule_library_payload", "failed_put_caught_session_continues"]
 
